@@ -157,7 +157,7 @@ def eval_rule(rule, s, k, r):
 # same parameters whatever their representation.
 SCALAR_REPS = ['int', 'float', 'np.int8', 'np.uint8', 'np.int16', 'np.uint16', 'np.int32', 'np.int64',
                'np.float16', 'np.float32', 'np.float64', 'nd0']
-SEQ_REPS = ['list', 'nd:int16', 'nd:int32', 'nd:int64', 'nd:uint8', 'nd:float32', 'nd:float64', 'nd:complex64',
+SEQ_REPS = ['list', 'mixlist', 'nd:int16', 'nd:int32', 'nd:int64', 'nd:uint8', 'nd:float32', 'nd:float64', 'nd:complex64',
             'nd:int64:rev', 'nd:float64:stride', 'nd:int32:F', 'nd:int64:bcast']
 
 
@@ -1298,11 +1298,30 @@ def oracle_extras(case, ob):
     return out
 
 
+def library_exception(case, e):
+    """an exception that came out of the library (not out of the harness) on a covered input is a failing
+    input: returns (call, class, detail) or None"""
+    import traceback
+    tb = traceback.extract_tb(e.__traceback__)
+    if isinstance(e, core.Infra) or not any(os.path.realpath(f.filename).startswith(os.path.realpath(core.REPO))
+                                            for f in tb):
+        return None
+    return ('SimulationRunner.simulate', 'library-exception:' + '+'.join(features(case)),
+            '%s: %s at %s' % (type(e).__name__, str(e)[:200],
+                              ' <- '.join('%s:%d' % (os.path.basename(f.filename), f.lineno) for f in tb[-3:])))
+
+
 def _replay_point(case, m, tear, hard, power=False):
     scratch = tempfile.mkdtemp(prefix='c07_replay_')
     try:
-        r = crash_and_restart(case, m, tuple(tear) if tear else None, scratch, tag_table(case), hard=hard,
-                              extras=not hard and not power, power=power)
+        try:
+            r = crash_and_restart(case, m, tuple(tear) if tear else None, scratch, tag_table(case), hard=hard,
+                                  extras=not hard and not power, power=power)
+        except Exception as e:
+            v = library_exception(case, e)
+            if v is None:
+                raise
+            return [v]
         ob = r['power' if power else ('hard' if hard else 'soft')]
         return (oracle_point(case, ob) + oracle_general(case, ob) + oracle_extras(case, ob)) if ob is not None else []
     finally:
@@ -1458,8 +1477,27 @@ def gen_case(rng, shapes=SHAPES_SMALL, rmax=6, kind=None):
         case['out_rep'] = rng.choice(OUT_REPS)
     elif r < 5:
         case['scale_exp'] = rng.choice([40, -40])
-    if variant in ('same', 'repmax') and rng.chance(0.3):
-        case.update(same_runner=True, clk1=[], clk2=[])
+    if rng.chance(0.3 if variant in ('same', 'repmax') else 0.15):
+        case.update(same_runner=True, clk1=[], clk2=[])      # with other parameters: changed IN PLACE (R13)
+    # R8-R14
+    if rng.chance(0.12) and not case.get('scale_exp') and not case.get('out_rep'):
+        case.update(out_mix=True, scale_exp=-1)
+    if rng.chance(0.35):
+        case['forms'] = {'simulate': rng.choice(['()', '(None)', 'kw']), 'filename': rng.choice(['pos', 'kw']),
+                         'folder': rng.choice(['default', 'explicit', 'custom', 'none']),
+                         'delete': rng.choice(['default', 'explicit'])}
+    if rng.chance(0.25) and not case.get('same_runner'):
+        fl = list(IDX_FORMS)
+        rng.shuffle(fl)
+        case.update(via='singles', idx_forms=fl[:rng.randint(1, 5)], via_fresh=rng.chance(0.4))
+    if rng.chance(0.3):
+        case['order'] = rng.randint(0, 999)
+    if rng.chance(0.15):
+        case['queries'] = True
+    if rng.chance(0.15):
+        case['derive'] = True
+    if rng.chance(0.2):
+        case['extra_results'] = rng.randint(1, 6)
     return case
 
 
@@ -1541,6 +1579,63 @@ def robust_cases():
     return out
 
 
+def robust2_cases():
+    """R8-R14: one deterministic scenario per class (small streams: every crash point is taken)"""
+    out = []
+    small = dict(rm1=2, rm2=2, keep=['always'], outs1=[1, 2, 's', 1, 2, 1, 1, 1], clk1=[], outs2=[3] * 10, clk2=[],
+                 ext='', variant='same')
+    rich = spec_of((2,), rich=True)
+    two = spec_of((2, 2), rich=True)
+    # R8: keyword / explicit-default arguments, every way of naming the partial-results folder
+    out.append(dict(small, p1=rich, p2=rich, forms={'simulate': '(None)', 'filename': 'kw', 'folder': 'explicit',
+                                                    'delete': 'explicit'}))
+    out.append(dict(small, p1=rich, p2=rich, forms={'simulate': 'kw', 'folder': 'custom'}, ext='.json'))
+    out.append(dict(small, p1=rich, p2=rich, forms={'folder': 'none'}, order=3))
+    # R8/R9: the restart as simulate(0), simulate(1), ... (index in every accepted form), then simulate()
+    out.append(dict(small, p1=two, p2=two, outs1=[1] * 12, outs2=[3] * 14, via='singles', idx_forms=IDX_FORMS[:4]))
+    out.append(dict(small, p1=two, p2=two, outs1=[1, 's'] * 8, outs2=[3, 's'] * 10, via='singles', via_fresh=True,
+                    idx_forms=IDX_FORMS[4:8], keep=['sumlt:5']))
+    out.append(dict(small, p1=two, p2=two, outs1=[1] * 12, outs2=[3] * 14, via='singles',
+                    idx_forms=IDX_FORMS[8:], forms={'folder': 'none'}, rm2=3, variant='repmax'))
+    out.append(dict(small, p1=rich, p2=dict(rich, fixed=dict(rich['fixed'], fx0=8)), via='singles',
+                    idx_forms=['np.int64', 'str'], variant='fixed-changed'))
+    # R10: result values of mixed types (logical value o/2), parameter lists with mixed element types
+    out.append(dict(small, p1=dict(rich, rep={'a': 'mixlist', 'fl': 'mixlist'}), p2=rich, variant='representation-only',
+                    out_mix=True, scale_exp=-1, outs1=[2, 1, 's', 4, 3, 1, 1, 1], outs2=[2, 3, 5, 4, 1, 1, 1, 1, 1, 1],
+                    keep=['sumlt:9'], rm1=4, rm2=4))
+    # R11: queries before and after every run; R12: insertion orders; R13: children changed after derivation
+    out.append(dict(small, p1=two, p2=two, outs1=[1] * 12, outs2=[3] * 14, queries=True))
+    out.append(dict(small, p1=rich, p2=rich, queries=True, derive=True, order=11, extra_results=3, ext='.json'))
+    out.append(dict(small, p1=two, p2=two, outs1=[1, 2] * 6, outs2=[3, 4] * 7, order=5, extra_results=4,
+                    via='singles', idx_forms=['int', 'kw:int']))
+    out.append(dict(small, p1=dict(rich, rep={'a': 'nd:int64', 'fl': 'nd:int16'}), p2=dict(rich, rep={'fl': 'list'}),
+                    variant='representation-only', derive=True))
+    # R13/R7: the parameters object of the interrupted runner is changed in place, then simulate() again
+    for kind, p2 in (('fixed-changed', dict(rich, fixed=dict(rich['fixed'], fx0=8))),
+                     ('param-added-scalar', dict(rich, fixed=dict(rich['fixed'], new0=0))),
+                     ('param-removed', dict(rich, fixed={k: v for k, v in rich['fixed'].items() if k != 'z0'})),
+                     ('grid-extended', dict(rich, vals={'a': rich['vals']['a'] + [77]}))):
+        out.append(dict(small, p1=rich, p2=p2, variant=kind, same_runner=True))
+    return out
+
+
+def big_cases():
+    """R9/R14: counts above 256 (sampled crash points)"""
+    out = []
+    n = 258
+    p = {'fixed': {'fx0': 7}, 'names': ['a'], 'vals': {'a': list(range(1000, 1000 + n))}, 'rep': {'a': 'nd:int16'}}
+    out.append((dict(p1=p, p2=p, rm1=1, rm2=1, keep=['always'], outs1=[1 + (i % 3) for i in range(n + 3)], clk1=[],
+                     outs2=[2] * (n + 3), clk2=[], ext='', variant='same', via='singles',
+                     idx_forms=['np.int16', 'np.uint16', 'int', 'np.int64', 'str', 'np.intp', 'nd0', 'kw:np.int64']),
+                [0, 7 * 100, 7 * 129 + 3, 7 * 256 + 6, 7 * 257 + 1, 7 * n + 6]))
+    many = {'fixed': dict({'p%03d' % j: j for j in range(300)}, fx0=7), 'names': ['a'], 'vals': {'a': [10, 11]}}
+    changed = dict(many, fixed=dict(many['fixed'], p257=0))
+    small = dict(rm1=2, rm2=2, keep=['always'], outs1=[1, 2, 1, 2, 1, 1], clk1=[], outs2=[3] * 8, clk2=[], ext='')
+    out.append((dict(small, p1=many, p2=many, variant='same', extra_results=300, order=2), [0, 5, 9, 17, 22]))
+    out.append((dict(small, p1=many, p2=changed, variant='fixed-changed', order=4), [9, 17]))
+    return out
+
+
 def boundary_case(rm, ext, nvar=1, skips=False):
     """rep_max around the 500-repetition save period"""
     p = spec_of((nvar,)) if nvar > 1 else spec_of(())
@@ -1573,7 +1668,15 @@ def exhaustive_cases():
 def run_case(ctx, case, pts=None, tears=(0.0, 0.5, 1.0), hard=True, name='crash-restart'):
     """all (or the listed) crash points of one scenario: correspondence + oracles"""
     tab = tag_table(case)
-    kinds, ob_full = trace_kinds(case, ctx.scratch)
+    try:
+        kinds, ob_full = trace_kinds(case, ctx.scratch)
+    except Exception as e:
+        v = library_exception(case, e)
+        if v is None:
+            raise
+        ctx.fail(v[0], v[1], {'case': case, 'm': 0, 'tear': None, 'hard': False}, v[2])
+        ctx.branch('oracle-fail:' + v[1])
+        return
     dk = diff_kind(case)
     lines = [case_line(case, pts)]
     if dk not in ('same', 'representation-only'):
@@ -1607,7 +1710,17 @@ def run_case(ctx, case, pts=None, tears=(0.0, 0.5, 1.0), hard=True, name='crash-
             power = evk.endswith(('tmpFsync', 'tmpClose', 'rename', 'syncMain'))
         else:
             power = evk not in ('call', 'start')
-        r = crash_and_restart(case, m, tear, ctx.scratch, tab, hard=hard, extras=extras, power=power)
+        # a hard kill differs from an exception only while a file is open or a temp file exists
+        hard_here = hard and (ctx.tier != 'quick' or evk not in ('call', 'start'))
+        try:
+            r = crash_and_restart(case, m, tear, ctx.scratch, tab, hard=hard_here, extras=extras, power=power)
+        except Exception as e:
+            v = library_exception(case, e)
+            if v is None:
+                raise
+            ctx.fail(v[0], v[1], {'case': case, 'm': m, 'tear': list(tear) if tear else None, 'hard': False}, v[2])
+            ctx.branch('oracle-fail:' + v[1])
+            continue
         for kind in ('soft', 'hard', 'power'):
             ob = r.get(kind)
             if ob is None:
@@ -1683,6 +1796,38 @@ def robust_branches(ctx, case, dk):
         ctx.branch('R5:rep_max-0-or-1')
     if case.get('scale_exp'):
         ctx.branch('R6:scaled-results')
+    forms = case.get('forms') or {}
+    if forms.get('simulate') in ('(None)', 'kw') or forms.get('filename') == 'kw':
+        ctx.branch('R8:keyword-and-explicit-default-arguments')
+    if forms.get('folder') in ('explicit', 'custom', 'none'):
+        ctx.branch('R8:partial_results_folder-' + forms['folder'])
+    if case.get('via') == 'singles':
+        ctx.branch('R8:simulate(index)-per-variation-then-simulate()')
+        fl = set(case.get('idx_forms') or ['int'])
+        if fl & {'np.int8', 'np.int16', 'np.int32', 'np.int64', 'np.uint8', 'np.uint16', 'np.intp', 'kw:np.int64'}:
+            ctx.branch('R9:numpy-integer-index')
+        if fl & {'nd0', 'str', 'bool'}:
+            ctx.branch('R9:0-d-array-str-bool-index')
+        if nvar_of(case['p2']) > 256:
+            ctx.branch('R9:index-above-256')
+    if case.get('out_mix'):
+        ctx.branch('R10:mixed-result-value-types')
+    if 'mixlist' in reps:
+        ctx.branch('R10:mixed-element-types-in-a-parameter-list')
+    if case.get('queries'):
+        ctx.branch('R11:queries-between-the-steps')
+    if case.get('order') is not None:
+        ctx.branch('R12:insertion-orders')
+    if case.get('derive'):
+        ctx.branch('R13:children-mutated')
+    if case.get('same_runner') and case['p1'] != case['p2']:
+        ctx.branch('R13:parent-mutated-in-place-after-children-were-saved')
+    if max(nvar_of(case['p1']), nvar_of(case['p2'])) > 256:
+        ctx.branch('R14:more-than-256-variations')
+    if case.get('extra_results', 0) > 256:
+        ctx.branch('R14:more-than-256-named-results')
+    if max(len(case['p1']['fixed']), len(case['p2']['fixed'])) > 256:
+        ctx.branch('R14:more-than-256-parameters')
 
 
 def run_case_oracles_only(ctx, case, name='delete-partial-results'):
@@ -1753,12 +1898,23 @@ def check(ctx):
                              'R2:0-d-array', 'R2:zero-length-axis', 'R2:2-D-values', 'R2:size-0-value',
                              'R3:inputs-compared', 'R4:refused-then-correct-restart', 'R5:zero-none-empty-values',
                              'R5:rep_max-0-or-1', 'R6:scaled-results', 'R7:same-runner-object',
-                             'R7:further-restart-on-shared-parameters']
+                             'R7:further-restart-on-shared-parameters',
+                             'R8:keyword-and-explicit-default-arguments', 'R8:partial_results_folder-explicit',
+                             'R8:partial_results_folder-custom', 'R8:partial_results_folder-none',
+                             'R8:simulate(index)-per-variation-then-simulate()', 'R9:numpy-integer-index',
+                             'R9:0-d-array-str-bool-index', 'R9:index-above-256', 'R10:mixed-result-value-types',
+                             'R10:mixed-element-types-in-a-parameter-list', 'R11:queries-between-the-steps',
+                             'R12:insertion-orders', 'R13:children-mutated',
+                             'R13:parent-mutated-in-place-after-children-were-saved',
+                             'R14:more-than-256-variations', 'R14:more-than-256-named-results',
+                             'R14:more-than-256-parameters']
     try:
         rng = ctx.rng.fork('cases')
-        fixed = corpus_cases() + robust_cases()
+        fixed = corpus_cases() + robust_cases() + robust2_cases()
         for c in fixed:
             run_case(ctx, c)
+        for c, pts in big_cases()[:None if not quick else 3]:
+            run_case(ctx, c, pts=pts, tears=(0.5,), name='crash-restart-large-counts')
         for c in [gen_case(rng) for _ in range(14 if quick else 200)]:
             run_case(ctx, c, tears=(0.5,) if quick else (0.0, 0.5, 1.0))
         for c in corpus_cases()[:2 if quick else 5] + ([] if quick else [gen_case(rng) for _ in range(20)]):
